@@ -4,6 +4,7 @@ import NixModel.Lemmas.C01History
 import NixModel.Lemmas.C01Region
 import NixModel.Lemmas.C01Gen
 import NixModel.Lemmas.C01Typed
+import NixModel.Lemmas.C01Spell
 
 /-!
 # C01 — array data is stored and returned exactly (type, shape, values)
@@ -506,5 +507,106 @@ theorem C01_shrink_grow_fill (A B C : DArr) (e1 e2 : List Int)
 
 example : ∃ B C, setExtent ⟨.int8, false, ⟨[3], fun _ => .int 7⟩⟩ [1] = .ok B ∧ setExtent B [3] = .ok C ∧
     C.arr.get [0] = .int 7 ∧ C.arr.get [2] = .int 0 := ⟨_, _, rfl, rfl, rfl, rfl⟩
+
+/-! ## The spelling of the element type
+
+`create_data_array(dtype=…)` takes whatever NumPy takes as a dtype.  `Generated/DataSetDType.lean` holds what the
+source does with it (regenerated on every run): the `DataType` members, the calls that carry the argument to h5py,
+the one rule of `H5DataSet.__init__` that looks at it. -/
+
+open Nix.NdSpell Nix.Gen.DataSetDType in
+/-- `nixio.DataType`: the twelve members are the NumPy scalar types of the twelve element types — `Float` the
+32-bit, `Double` the 64-bit float — and the class defines nothing else that maps types (two type groups, two
+helpers) -/
+theorem C01_datatype_members :
+    dataTypeMembers.map (fun p => (p.1, npScalarType p.2)) =
+      [("UInt8", some .uint8), ("UInt16", some .uint16), ("UInt32", some .uint32), ("UInt64", some .uint64),
+       ("Int8", some .int8), ("Int16", some .int16), ("Int32", some .int32), ("Int64", some .int64),
+       ("Float", some .float32), ("Double", some .float64), ("String", some .string), ("Bool", some .bool)] ∧
+    dataTypeOther = ["IntTypes = (Int8, Int16, Int32, Int64, UInt8, UInt16, UInt32, UInt64)",
+      "FloatTypes = (Float, Double)", "def get_dtype(cls, value)", "def is_numeric_dtype(cls, dtype)"] := by
+  decide
+
+open Nix.NdSpell Nix.Gen.DataSetDType in
+/-- the `dtype` argument reaches h5py as it was given: each of the four calls between `create_data_array` and
+`require_dataset` passes its own variable, none rebinds it on the way (the `dtype is None` defaults of
+`create_data_array` are `createRules`, the text rule of `H5DataSet.__init__` is `h5InitDtype`), and the dataset is
+created with exactly these keyword arguments -/
+theorem C01_dtype_handed_through :
+    dtypeHops.map (fun h => h.1) =
+      ["Block.create_data_array -> DataArray.create_new", "DataArray.create_new -> H5Group.create_dataset",
+       "H5Group.create_dataset -> H5DataSet", "H5DataSet.__init__ -> require_dataset"] ∧
+    (∀ h ∈ dtypeHops, h.2.2.1 = h.2.1 ∧ h.2.2.2 = []) ∧
+    (∀ d, h5InitDtype d = if DtypeVal.pyEq dataTypeMembers d "String" then .vlenStr else d) ∧
+    h5InitCreateArgs = ["shape=shape", "dtype=dtype", "chunks=True", "maxshape=maxshape", "**=comprargs"] := by
+  refine ⟨by decide, by decide, fun d => rfl, by decide⟩
+
+open Nix.NdSpell Nix.Gen.DataSetDType in
+/-- **every spelling means what NumPy means by it.**  A dtype argument that NumPy reads as one of the eleven
+numeric / boolean element types `t` — Python's `bool` / `int` / `float`, a NumPy scalar type, a `DataType` member, a
+`np.dtype` object of either byte order, a type string — creates exactly what `dtype=t` creates: all theorems
+about `createS` (element type, shape, content) hold for it.  For text: a spelling equal to `DataType.String` (the
+member, `np.str_`, a dtype object of kind U) creates what `dtype=DataType.String` creates; any other spelling of
+text (`str`, `'U'`) reaches h5py as fixed-width unicode and nothing is created -/
+theorem C01_spelling_exact (s : Spelling) (t : DType) (sw : Bool) (shape : Option (List Nat)) (data : Option Arr)
+    (compr : Bool) (hm : meaning dataTypeMembers s = some ⟨t, sw⟩) :
+    (t ≠ .string → createSpelled s shape data compr = some (createS (some t) shape data compr)) ∧
+    (t = .string → pyEqMember dataTypeMembers s "String" = true →
+      createSpelled s shape data compr = some (createS (some .string) shape data compr)) ∧
+    (t = .string → pyEqMember dataTypeMembers s "String" = false →
+      ∃ r, createSpelled s shape data compr = some r ∧ ∀ A, r ≠ .ok A) := by
+  have harg := spelledArg_eq s
+  rw [hm] at harg
+  refine ⟨fun ht => ?_, fun ht hp => ?_, fun ht hp => ?_⟩
+  · have : spelledArg s = some (.nix t) := by
+      rw [harg]; cases t <;> first | rfl | exact absurd rfl ht
+    simp only [createSpelled, this, Option.map_some]
+    exact congrArg some (createRules_eq (some t) shape data compr)
+  · subst ht
+    have : spelledArg s = some (.nix .string) := by rw [harg]; simp [hp]
+    simp only [createSpelled, this, Option.map_some]
+    exact congrArg some (createRules_eq (some .string) shape data compr)
+  · subst ht
+    have : spelledArg s = some .numpyText := by rw [harg]; simp [hp]
+    simp only [createSpelled, this, Option.map_some]
+    exact ⟨_, rfl, fun A => create_numpyText_refused _ data compr A⟩
+
+open Nix.NdSpell Nix.Gen.DataSetDType in
+/-- an array that is created has the element type NumPy means by the spelling of its `dtype` argument — never
+another width, kind or signedness -/
+theorem C01_spelling_created_type (s : Spelling) (shape : Option (List Nat)) (data : Option Arr) (compr : Bool)
+    (A : DArr) (h : createSpelled s shape data compr = some (.ok A)) :
+    ∃ sw, meaning dataTypeMembers s = some ⟨A.dtype, sw⟩ := by
+  have harg := spelledArg_eq s
+  cases hm : meaning dataTypeMembers s with
+  | none =>
+    rw [hm] at harg
+    simp [createSpelled, harg] at h
+  | some m =>
+    obtain ⟨t, sw⟩ := m
+    obtain ⟨h1, h2, h3⟩ := C01_spelling_exact s t sw shape data compr hm
+    by_cases ht : t = .string
+    · cases hp : pyEqMember dataTypeMembers s "String" with
+      | true =>
+        rw [h2 ht hp] at h
+        have := createS_dtype (Option.some.inj h)
+        exact ⟨sw, by rw [this, ht]; rfl⟩
+      | false =>
+        obtain ⟨r, hr, hno⟩ := h3 ht hp
+        rw [hr] at h
+        exact absurd (Option.some.inj h) (hno A)
+    · rw [h1 ht] at h
+      have := createS_dtype (Option.some.inj h)
+      exact ⟨sw, by rw [this]; rfl⟩
+
+open Nix.NdSpell Nix.Gen.DataSetDType in
+example : meaning dataTypeMembers (.py .float) = some ⟨.float64, false⟩ ∧
+    meaning dataTypeMembers (.nix "Float") = some ⟨.float32, false⟩ ∧
+    meaning dataTypeMembers (.typeStr (some '>') "i4") = some ⟨.int32, true⟩ ∧
+    meaning dataTypeMembers (.typeStr none "complex") = none := by decide
+open Nix.NdSpell Nix.Gen.DataSetDType in
+example : ∃ A, createSpelled (.py .float) (some [2]) none false = some (.ok A) ∧ A.dtype = .float64 := ⟨_, rfl, rfl⟩
+open Nix.NdSpell Nix.Gen.DataSetDType in
+example : spelledArg (.py .str) = some .numpyText ∧ spelledArg (.dtypeObj none "U") = some (.nix .string) := by decide
 
 end Nix.C01
